@@ -136,6 +136,24 @@ def gen_cases(rng, tier):
                     calls.append(("PT", q[:-1]))
             calls += [("PT", list(mid)), ("PFIN",), ("PDROP",), ("FIN",)]
             cases.append(("%s:rejected-extreme" % "+".join(g), calls))
+    # extension records whose LOCAL name is intensity / colorRed / colorGreen / colorBlue (another type than the
+    # standard record) before, after and without the standard record: the default limits come from the
+    # standard record only (none when it is absent)
+    xyz = [("x", "D"), ("y", "D"), ("z", "D")]
+    ux = lambda nm: ("u", "e1", nm)
+    std_in, std_rgb = [("in", "I/0/255")], [("r", "I/0/255"), ("g", "I/0/1023"), ("b", "I/10/20")]
+    ext_in = [(ux("intensity"), "I/0/7")]
+    ext_rgb = [(ux("colorRed"), "I/0/7"), (ux("colorGreen"), "I/0/7"), (ux("colorBlue"), "I/0/7")]
+    shapes = [("ext-intensity-before", ext_in + xyz + std_in), ("ext-intensity-after", xyz + std_in + ext_in),
+              ("ext-intensity-alone", xyz + ext_in), ("ext-intensity-float-std", ext_in + xyz + [("in", "F/00000000/3f800000")]),
+              ("ext-color-before", ext_rgb + xyz + std_rgb), ("ext-color-after", xyz + std_rgb + ext_rgb),
+              ("ext-color-alone", xyz + ext_rgb), ("ext-color-mixed", xyz + [ext_rgb[0], std_rgb[0], ext_rgb[1], std_rgb[1], std_rgb[2], ext_rgb[2]]),
+              ("ext-red-only-before", [ext_rgb[0]] + xyz + std_rgb), ("ext-both", ext_in + ext_rgb + xyz + std_in + std_rgb)]
+    for label, proto in shapes:
+        for n in (0, 2):
+            pts = gen_point_seq(rng, proto, "random", n)
+            calls = [("NEW", "g"), ("EXT", "e1", "http://e.example/1"), ("PC", "pc", proto)] + [("PT", p) for p in pts] + [("PFIN",), ("PDROP",), ("FIN",)]
+            cases.append(("limits:" + label, calls))
     # duplicate attribute names, several clouds per file, rejected points in between, limit overrides
     for _ in range(40 if tier == "quick" else 600):
         calls = [("NEW", "g")]
